@@ -265,10 +265,12 @@ def jobs(tier):
     combos = []
     if q:
         combos = [(1, 1, ['a'], ['A'], 0.5, 2.0, False), (2, 2, ['a', 'b'], ['A', 'b'], 0.5, 2.0, False), (2, 1, ['a', 'b'], ['x'], 0.5, 2.0, False),
-                  (2, 2, ['a', 'B'], ['x', 'x'], 0.5, 2.0, True), (2, 2, ['a', 'b'], ['b', 'a'], 0.25, 1.0, False)]
+                  (2, 2, ['a', 'B'], ['x', 'x'], 0.5, 2.0, True), (2, 2, ['a', 'b'], ['b', 'a'], 0.25, 1.0, False),
+                  # more distinct labels in the estimate than in the reference (a non-square contingency table)
+                  (2, 3, ['a', 'b'], ['x', 'y', 'Z'], 0.5, 2.0, False)]
     else:
         for fs, maxT in ((0.5, 2.0), (0.25, 1.0), (0.1, 0.4), (0.5, 4.0)):
-            for n, m in ((1, 1), (2, 1), (2, 2), (3, 2), (3, 3)):
+            for n, m in ((1, 1), (2, 1), (2, 2), (3, 2), (2, 3), (3, 3)):
                 if maxT == 4.0 and (n, m) not in ((2, 2), (3, 2)):
                     continue
                 for rl in P[n]:
